@@ -263,8 +263,12 @@ func flight4Parse(
 // client's Finished verified and the client-authentication policy was met, so
 // that an abbreviated handshake can never stand in for a full handshake that
 // would not have completed.
+//
+// A session whose master secret was derived without the extended master
+// secret extension is not kept: it must not be resumed.
+// https://www.rfc-editor.org/rfc/rfc7627#section-5.3
 func flight4StoreSession(state *dtlsstate.State12, cfg *dtlsconfig.HandshakeConfig) (Flight, *alert.Alert, error) {
-	if len(state.SessionID) > 0 {
+	if len(state.SessionID) > 0 && state.ExtendedMasterSecret {
 		cfg.Log.Tracef("[handshake] save new session: %x", state.SessionID)
 		if err := cfg.SetSession(state.SessionID, state.SessionID, state.MasterSecret); err != nil {
 			return 0, &alert.Alert{Level: alert.Fatal, Description: alert.InternalError}, err
